@@ -6,6 +6,7 @@ UAPI numbers. The constants/tables are regenerated from the Go sources on every 
 import LA.Proofs.Rule
 import LA.Proofs.RuleBounds
 import LA.Spec.RuleUapi
+import LA.Proofs.StateFacts
 
 namespace LA.Rule
 open LA
@@ -290,3 +291,9 @@ example : (match build ⟨false, [], []⟩ (.syscall 3 (ofString "exit") (ofStri
     | _ => false) = true := by decide +kernel
 
 end LA.Rule
+
+/-! ### the code keeps nothing between calls that the model does not have -/
+
+/-- Packages rule and rule/flags write package-level variables only in the five table builders, which nothing but `init`
+mentions (regenerated list, see LA.Proofs.StateFacts): Parse, Build and ToCommandLine are functions of their arguments. -/
+theorem C06_rule_packages_keep_nothing_between_calls : LA.StateFacts.ofPkg "rule" = LA.StateFacts.ruleTableBuilders ∧ LA.StateFacts.ofPkg "rule/flags" = [] := by decide
